@@ -248,7 +248,13 @@ def run_unit(unit, tier):
                     xor_case(key, data, r)
                     if kind == "ramp" and isinstance(key, bytes) and len(key) in (3, 7):
                         xor_case(key, data, r, via_ctx=True)
-        r.sample({"scale": "xor", "sizes": scale.sizes(tier), "key_lengths": [1, 2, 3, 5, 7, 10, 17, 64, 80, 255, 257]})
+        # beyond 2**20 bytes (a second "large block"), a few keys only
+        for n in scale.BIG:
+            data = scale.payload(n, "ramp")
+            for key in (0x5a, b"\x01\x02\x03", bytes(range(1, 8)), bytes(range(1, 101))):
+                r.states += 1
+                xor_case(key, data, r)
+        r.sample({"scale": "xor", "sizes": scale.sizes(tier) + scale.BIG, "key_lengths": [1, 2, 3, 5, 7, 10, 17, 64, 80, 255, 257]})
         return r
     if k == "scale-rot":
         from .. import scale
@@ -435,6 +441,16 @@ def run_swap(r):
 CODECS = {"zlib": zlib, "gzip": gzip, "bzip2": bz2, "lzma": lzma}
 
 
+def R_leb(n):
+    out = bytearray()
+    while True:
+        b = n & 0x7f
+        n >>= 7
+        out.append(b | (0x80 if n else 0))
+        if not n:
+            return bytes(out)
+
+
 def run_codec(enc, tier, r):
     import construct as C
     lib = CODECS[enc]
@@ -471,7 +487,28 @@ def run_codec(enc, tier, r):
                 sb = tryex(lambda: st.build(dict(a=data[0], rest=data[1:])))
                 if sb[0] != "ok" or tryex(lambda: lib.decompress(sb[1])) != ("ok", data):
                     r.violation("C15/codec/%s/struct-inner" % enc, case, repr(sb)[:200])
-    r.sample({"encoding": enc, "levels": [None, 1, 9], "data_strings": len(datas)})
+    # streams of several concatenated members (cat a.gz b.gz, pbzip2, multi-stream xz): the codec's own decompress() defines the result
+    d = C.Compressed(C.GreedyBytes, enc)
+    p = C.Struct("z" / C.Prefixed(C.VarInt, C.Compressed(C.GreedyBytes, enc)), "t" / C.Byte)
+    parts = [b"", b"a", b"hello world " * 20, bytes(range(256)) * 3, bytes(5000)]
+    for members in itertools.chain(itertools.product(parts, repeat=2), [tuple(parts[1:]), (parts[2],) * 5]):
+        ext = b"".join(lib.compress(m) for m in members)
+        want = tryex(lambda: lib.decompress(ext))
+        got = tryex(lambda: bytes(d.parse(ext)))
+        r.states += 1
+        r.case(nontrivial=True, outcome="multi-member", transitions=2, validated=1)
+        case = {"t": "codec", "encoding": enc, "level": None, "data": b"", "members": [len(m) for m in members]}
+        if want[0] == "ok" and got != want:
+            r.violation("C15/codec/%s/multi-member-differs" % enc, case, "%d concatenated members (%s bytes): parse gives %r..., %s.decompress gives %d bytes" % (
+                len(members), [len(m) for m in members], (got[1][:20] if got[0] == "ok" else got), enc, len(want[1])))
+        elif want[0] != "ok" and got[0] == "ok":
+            r.violation("C15/codec/%s/multi-member-accepted" % enc, case, "parse accepts what %s.decompress refuses (%s)" % (enc, want[1]))
+        if want[0] == "ok":
+            msg = R_leb(len(ext)) + ext + b"\x07"
+            got2 = tryex(lambda: (lambda o: (bytes(o.z), o.t))(p.parse(msg)))
+            if got2 != ("ok", (want[1], 7)):
+                r.violation("C15/codec/%s/multi-member-differs" % enc, dict(case, prefixed=True), "inside Prefixed: %r" % (got2[:1],))
+    r.sample({"encoding": enc, "levels": [None, 1, 9], "data_strings": len(datas), "multi_member_streams": 27})
 
 
 def replay(case):
